@@ -1470,7 +1470,9 @@ func (a *align) MaxCharStats(ignoreGaps, ignoreNs bool) (out []uint8, occur []in
 			// Otherwise, if v > max, we update max occurence char
 			if !(ignoreGaps && k == GAP) && !(ignoreNs && (k == all || k == allc)) {
 				total[site] += v
-				if v > max {
+				// ties are broken in favour of the smallest character, so that the result does
+				// not depend on the iteration order of the map
+				if v > max || (v == max && max > 0 && k < out[site]) {
 					out[site] = k
 					occur[site] = v
 					max = v
